@@ -41,12 +41,16 @@ MANIFEST = {
                   "covered). Trusted: Lean kernel; the AST extractor (lambdas passed as arguments run where written, overloads merged, std::function "
                   "targets bound by a 3-entry table, substr uses reviewed by hand); the driver's hand model of which primitive an input reaches "
                   "(state-dependent parts - cached manifest, chunk held - are taken from the harness's observation as validated hints); harness, "
-                  "g++/libstdc++. Holds on the tree with fixes/C35-*.patch applied.",
+                  "g++/libstdc++. Holds on the tree with the five fixes/C35-*.patch applied (reconstruction failure -> nullopt, FETCH OUT path, "
+                  "catch at the control accept loop, catch at the session handler calls, receive timeout before the peer id). Known finding "
+                  "C35-K1 (reported as KNOWN-FINDING by the real-thread probe on every run; Lean: C35_counterexample / C35_partial): the control "
+                  "accept thread serves clients serially with unbounded blocking reads, so a silent control client delays every other one.",
     "technique": "Lean 4 proof over a call tree regenerated from the clang AST (kernel-checked fixpoint + soundness lemma) + in-process "
                  "differential correspondence through the real thread functions under ASan/UBSan + real-thread loopback runs",
 }
 
 CACHE = BUILD / "c35ast"
+CODECS = "EphVerif.Proofs.C35Codecs"
 NS = 10 ** 9
 WALL0_S = 1_700_000_000 + 1000          # system_clock of the virtual clock at case start, seconds
 TAG = {"ann": 1, "req": 2, "chk": 3, "ack": 4, "hs": 5, "hsa": 6}
@@ -64,6 +68,8 @@ _last_tree = {}
 def extract():
     summ, gaps = X.load_summaries(REPO, CACHE, NPROC)
     tree = X.build_tree(summ)
+    tree["flags"], fgaps = X.read_flags(REPO)
+    gaps = gaps + fgaps
     _last_tree.clear()
     _last_tree.update(tree)
     write_if_changed(LEAN / "EphVerif" / "Generated" / "C35.lean", X.lean_text(tree))
@@ -468,6 +474,8 @@ def generate(ctx, budget):
     rng = ctx.rng
     big = ctx.tier == "thorough"
     cases = [case_known(rng, w) for w in KNOWN]
+    # real accept threads on loopback, one silent client ahead of a well-behaved one (known finding C35-K1 lives here)
+    cases.append(Case(ops=["rt stall"], tag="real-threads:stall"))
     for i in range(budget):
         r = i % 10
         if r < 4:
@@ -494,7 +502,7 @@ def nontrivial(r: CaseResult) -> bool:
             return True
         if " held=1" in line or " acc=1" in line or "/OK_" in line:
             return True
-        if line.startswith("ok link="):
+        if line.startswith("ok link=") or line.startswith("ok ctl-second="):
             return True
     return False
 
@@ -544,6 +552,10 @@ def post(ctx, results):
         ctx.hist(k, v)
     t = _last_tree
     if t:
+        bad = X.unprotected(t)
+        if bad:
+            ctx.notes.append("primitives that can reach a boundary uncaught (why C35.boundaries_closed fails): " +
+                             "; ".join(f"{b}: {', '.join(ss)}" for b, ss in bad.items()))
         ctx.notes.append(f"generated call tree: {len(t['fns'])} functions, {len(t['sites'])} primitive sites, roots {[n for n, _ in t['roots']]}; "
                          f"leaf classes {t['leaves']}")
 
@@ -551,7 +563,7 @@ def post(ctx, results):
 def spec() -> Spec:
     return Spec(
         pid=PID,
-        proof_modules=["EphVerif.Proofs.C35"],
+        proof_modules=["EphVerif.Proofs.C35", CODECS],
         driver="drv_c35",
         harness=harness,
         generate=generate,
@@ -563,6 +575,10 @@ def spec() -> Spec:
         search_budget={"quick": 300, "thorough": 4000},
         per_case_timeout=60.0,
         batch=400,
+        # attacker-chosen sizes are capped at 1 MiB by the code: an allocation beyond 256 MiB means a cap is gone;
+        # make it fail fast (ASan reports out-of-memory) instead of zero-filling gigabytes under ASan
+        env_extra={"ASAN_OPTIONS": "detect_leaks=0:abort_on_error=0:allocator_may_return_null=1:"
+                                   "detect_stack_use_after_return=0:max_allocation_size_mb=256"},
         rule="cases of 3-40 deliveries through the real thread functions: signed ANNOUNCE/CHUNK with adversarial manifests (24 variants: "
              "duplicate/zero indices inside and beyond the threshold, threshold 0 / > count, no shards, expiries, wrong id, truncated, garbage, "
              "old versions, 255 shards, trailing bytes) for chunks held / not held, then control FETCH of the same; every message type x "
@@ -580,9 +596,6 @@ def spec() -> Spec:
     )
 
 
-CODECS = "EphVerif.Proofs.C35Codecs"
-
-
 def run(tier, seed, replay=None):
     sp = spec()
     # Proofs/C35Codecs.lean re-uses C16 / C18 / C10 (decoders_total, the combine throw condition). When one of
@@ -595,8 +608,8 @@ def run(tier, seed, replay=None):
     ok, out = lake_build([CODECS])
     own = [f for f in failing_theorems(out, []) if "C35" in f]
     if ok or own or "C35" in "".join(re.findall(r"error: ([^\s:]+\.lean)", out)):
-        sp.proof_modules = ["EphVerif.Proofs.C35", CODECS]
         return standard_check(sp, tier, seed, replay)
+    sp.proof_modules = ["EphVerif.Proofs.C35"]
     dep_note = "Proofs/C35Codecs.lean not checked in this run: a proof file of C10/C16/C18 it imports does not build: " + \
                "; ".join(failing_theorems(out, []))[:400]
     old_post = sp.post
